@@ -525,6 +525,43 @@ func runC03(c *Ctx) {
 			c.Violation("unsolicited-response:"+q.Listener, "responses that match no query / stray bytes on "+q.Listener+": "+q.Note, map[string]any{"listener": q.Listener, "note": q.Note})
 		}
 	}
+	// one long-lived DoQ connection: 130 queries one after the other (more than the listener's limit of
+	// concurrently open streams, never more than one at a time), alternately from a client whose
+	// STREAM FIN goes out with the query and one whose FIN follows after the response
+	for _, late := range []bool{true, false} {
+		if !b.Proxy.Alive() || c.ViolationCount() > 0 {
+			break
+		}
+		qc, err := dnsclient.DialDoQ("", b.L["quic"], b.ProxyTLS)
+		if err != nil {
+			c.Inconclusive("long-lived DoQ connection: dial: " + err.Error())
+			break
+		}
+		qc.LateFin = late
+		unanswered, first := 0, -1
+		for i := 0; i < 130; i++ {
+			q := mkQuery(uint16(i), fmt.Sprintf("ok-doqlong%dl%v.pipe.test.", i, late), dns.TypeA, dns.ClassINET, false)
+			q[0], q[1] = 0, 0
+			res := qc.Exchange(dnsclient.Frame(q), 3*time.Second)
+			c.Ev.Eval(1)
+			if len(res.Frames) != 1 {
+				unanswered++
+				if first < 0 {
+					first = i
+				}
+				if unanswered >= 3 {
+					break
+				}
+			}
+		}
+		qc.Close()
+		if unanswered >= 3 {
+			c.Violation("no-response:quic:long-lived-connection", fmt.Sprintf("one DoQ connection, queries strictly one after the other (client FIN after the response: %v): query #%d and the ones after it got no response within 3 s (the first %d were answered)", late, first+1, first), map[string]any{"listener": "quic", "late_fin": late, "first_unanswered": first + 1})
+		} else {
+			c.Ev.Distinct("doq-long-lived", late)
+			c.Ev.Count("doq_long_lived_connection_queries_answered", int64(130-unanswered))
+		}
+	}
 	// liveness probe after everything
 	for _, l := range c03Listeners {
 		if !b.Proxy.Alive() {
